@@ -45,6 +45,21 @@ PROBES = {
     # Table
     'table': 'a | b\n--|:-:\n1 | 2\n`c|d` | **e**\n',
     'table_interrupt': 'para\na | b\n- | -\n1 | 2\n',
+    # a paragraph followed, without a blank line, by each construct that may or may not interrupt it
+    # (the lists of "breaking tokens" are derived from the active token set at parse time)
+    'para_html': 'foo\n<div>\nbar\n',
+    'para_html_comment': 'foo\n<!-- c -->\nbar\n',
+    'para_html7': 'foo\n<custom-tag>\nbar\n',
+    'para_fence': 'foo\n```\ncode\n```\n',
+    'para_quote': 'foo\n> q\n',
+    'para_list': 'foo\n- a\n14. b\n1. c\n',
+    'para_hr': 'foo\n***\nbar\n',
+    'para_indented': 'foo\n    not code\n',
+    'para_linkdef': 'foo\n[a]: /u\n\n[a]\n',
+    'quote_para_html': '> foo\n<div>\nbar\n',
+    'list_para_html': '- foo\n<div>\nbar\n',
+    'list_para_fence': '- foo\n```\ncode\n',
+    'blank_lines': 'a\n\n\nb\n   \nc\n',
     # lists and quotes (ptag stack, Jira/XWiki list state)
     'list_tight': '- a\n- b\n',
     'list_loose': '- a\n\n- b\n',
@@ -79,12 +94,13 @@ PROBES = {
     'latex_verb': '`' + '|!"\'=+#$%&()*,-./:;<>?@[]^_{}~0123456789\\' + '`\n',
     'pyg_unknown': '```nosuchlang\nx\n```\n',
     'toc_doc': '# T\n## a *b*\n### c `d`\n#### e\n## [l](/u)\n',
+    'toc_refs': '## \\[ref\\] and \\[foo\\]\n### plain *em* \\`c\\`\n',
 }
 
 # one sentinel per row of the state table (systematic sweep uses these right after every fault variant)
 SENTINELS = ['setext2', 'plain', 'code', 'ref_shortcut', 'ref_undefined', 'entity_def', 'headings',
              'fence_tilde', 'html2', 'table_interrupt', 'list_tight', 'list_loose', 'custom', 'quote',
-             'html_script']
+             'html_script', 'para_html']
 
 # documents that end in an exception without any custom token (F3b); when a later tree no longer
 # crashes on them they silently become ordinary documents
